@@ -440,7 +440,16 @@ def _c13_root(n, st0, root_out, vios, res):
 
 
 # -- C12 -------------------------------------------------------------------------------------------
-_IGNORED_NODE_KEYS = ("partition",)
+_IGNORED_NODE_KEYS = ("partition", "explored")
+_MEANINGFUL = ("element_symbol", "atomic_number", "chg", "mass", "rad", "x_coord", "y_coord", "z_coord")
+_ABSENT = "<absent>"
+
+
+def _kept(d_in, d_out):
+    """Every attribute of the input atom and every chemically meaningful attribute is the same on the output atom
+    (absence included); additional bookkeeping keys on the output are not the property's business."""
+    keys = (set(d_in) | set(_MEANINGFUL)) - set(_IGNORED_NODE_KEYS)
+    return all(d_in.get(k, _ABSENT) == d_out.get(k, _ABSENT) for k in keys)
 
 
 def _c12_state(n, st, g, gc, s, vios, res, tag=""):
@@ -478,9 +487,9 @@ def _c12_state(n, st, g, gc, s, vios, res, tag=""):
         vio("C12|bijection", f"renaming is not one-to-one: tracers {sorted(out_by_x)} vs {sorted(in_by_x)}")
         return
     for x, (k_in, d_in) in in_by_x.items():
-        a = {kk: vv for kk, vv in d_in.items() if kk not in _IGNORED_NODE_KEYS}
-        b = {kk: vv for kk, vv in out_by_x[x][1].items() if kk not in _IGNORED_NODE_KEYS}
-        if a != b:
+        if not _kept(d_in, out_by_x[x][1]):
+            a = {kk: vv for kk, vv in d_in.items() if kk not in _IGNORED_NODE_KEYS}
+            b = {kk: vv for kk, vv in out_by_x[x][1].items() if kk not in _IGNORED_NODE_KEYS}
             vio("C12|attrs", f"atom attributes changed: {a} -> {b}")
             break
     x_of_in = {k: x for x, (k, _) in in_by_x.items()}
@@ -498,10 +507,8 @@ def _c12_state(n, st, g, gc, s, vios, res, tag=""):
         vio("C12|serialize-exc", f"serialize_molecule (called twice on one graph) raised {type(ex).__name__}: {ex}")
         return
     af = snapshot(gc2)
-    if _strip_scratch(b4) != _strip_scratch(af):
-        vio("C12|serialize-mutates", "serialize_molecule changed its argument")
-    if any(v for _, d in gc2.nodes(data=True) for k, v in d.items() if k == "explored"):
-        vio("C12|scratch", "scratch flag not reset after serialize_molecule")
+    if _meaningful(b4) != _meaningful(af):
+        vio("C12|serialize-mutates", "serialize_molecule changed chemically meaningful data of its argument")
     if s2 != s or s3 != s:
         vio("C12|repeat", f"repeated canonicalize+serialize differs: {s!r} vs {s2!r} / {s3!r}")
     # the caller owns the result: scribble on it; canonicalizing the same input again must be unaffected
@@ -553,6 +560,13 @@ def _c12_derived_inputs(n, st, vios, res):
             case["kind"] = "e1-c12-derived"
             case["variant"] = name
             vios.append((key, case))
+
+
+def _meaningful(snap):
+    """Atoms (in order) with their chemically meaningful attributes and tracers, bonds with their data."""
+    nodes, adj, gattr = snap
+    keep = set(_MEANINGFUL)
+    return ([(k, [(a, b) for a, b in d if a in keep]) for k, d in nodes], adj)
 
 
 def _strip_scratch(snap):
@@ -638,7 +652,7 @@ def _c12_histories(n, st0, vios, res):
                 ok = False
             res["hist_exec"] += 1
             res["transitions"] += L
-            if not ok or _strip_scratch(snapshot(m)) != _strip_scratch(snapshot(ref_m)):
+            if not ok or _meaningful(snapshot(m)) != _meaningful(snapshot(ref_m)):
                 vios.append(("C12|history", {"kind": "e1-history", "n": n, "state": st0, "history": hist,
                                              "molfile": text,
                                              "summary": f"history {''.join(hist)} gives a different result or mutates the input"}))
